@@ -45,7 +45,11 @@ fn log_flush() {
 }
 
 /// State borrowed by the callbacks of one run.  Leaked on purpose.
+static NEXT_RUN: AtomicUsize = AtomicUsize::new(1);
+
 struct Borrowed {
+    /// distinguishes the runs a pool thread takes part in
+    run_id: usize,
     /// "poison": set (under the log lock) as soon as `execute_on` returned or unwound
     returned: AtomicBool,
     next_ord: AtomicUsize,
@@ -72,6 +76,7 @@ thread_local! {
     static POS: Cell<usize> = const { Cell::new(0) };
     static GRP: Cell<usize> = const { Cell::new(0) };
     static GATED: Cell<bool> = const { Cell::new(false) };
+    static LAST_RUN: Cell<usize> = const { Cell::new(0) };
 }
 
 impl Borrowed {
@@ -157,10 +162,23 @@ impl Borrowed {
 
     /// One callback invocation.
     fn callback(&self, name: &str, grp: Option<usize>) {
+        let first_of_run = LAST_RUN.get() != self.run_id;
+        LAST_RUN.set(self.run_id);
         if name == "prepare_thread" {
             ORD.set(self.next_ord.fetch_add(1, SeqCst) + 1);
             POS.set(1);
             GATED.set(false);
+        } else if first_of_run {
+            // a run configured WITHOUT prepare_thread (builder: groups(..).prepare_iter(..)): the (empty) per-thread
+            // preparation is recorded when the worker's first callback arrives, so that the same judge applies
+            ORD.set(self.next_ord.fetch_add(1, SeqCst) + 1);
+            GATED.set(false);
+            if let Some(g) = grp {
+                GRP.set(g);
+            }
+            self.access(json!({"ev":"enter","w":ORD.get(),"cb":"prepare_thread","grp":GRP.get()}));
+            self.access(json!({"ev":"exit","w":ORD.get(),"cb":"prepare_thread","panic":false}));
+            POS.set(2);
         }
         if let Some(g) = grp {
             GRP.set(g);
@@ -206,8 +224,15 @@ struct Outcome {
 
 /// Runs one configured run on `pool`; returns None if it hung (the pool is then lost with the stuck thread).
 fn run_one(pool: ThreadPool, n: usize, g: usize, k: usize, panic_at: Vec<usize>, stagger: (usize, u64), gate_ms: u64) -> (Option<ThreadPool>, bool) {
+    run_one_cfg(pool, n, g, k, panic_at, stagger, gate_ms, false)
+}
+
+/// `no_pt`: the run is configured without `prepare_thread` (builder order `Run::new().groups(g).prepare_iter(..)`).
+#[allow(clippy::too_many_arguments)]
+fn run_one_cfg(pool: ThreadPool, n: usize, g: usize, k: usize, panic_at: Vec<usize>, stagger: (usize, u64), gate_ms: u64, no_pt: bool) -> (Option<ThreadPool>, bool) {
     let faulty = panic_at.iter().any(|&p| p != 0);
     let b: &'static Borrowed = Box::leak(Box::new(Borrowed {
+        run_id: NEXT_RUN.fetch_add(1, SeqCst),
         returned: AtomicBool::new(false),
         next_ord: AtomicUsize::new(0),
         k,
@@ -225,35 +250,63 @@ fn run_one(pool: ThreadPool, n: usize, g: usize, k: usize, panic_at: Vec<usize>,
             let mut pool = pool;
             // The configured run owns the boxed callbacks; it is leaked as well so that the closures themselves stay
             // valid memory whatever the code under test does with them later.
-            let run = Box::leak(Box::new(
-                Run::new()
-                    .groups(NonZero::new(g).unwrap())
-                    .prepare_thread(move |a| {
-                        b.callback("prepare_thread", Some(a.meta().group_index()));
-                        TState { b, w: ORD.get() }
-                    })
-                    .prepare_iter(move |a| {
-                        b.callback("prepare_iter", Some(a.meta().group_index()));
-                        a.thread_state().w
-                    })
-                    .measure_wrapper(
-                        move |a| {
-                            b.callback("begin", Some(a.meta().group_index()));
+            let r = if no_pt {
+                let run = Box::leak(Box::new(
+                    Run::new()
+                        .groups(NonZero::new(g).unwrap())
+                        .prepare_iter(move |a| {
+                            b.callback("prepare_iter", Some(a.meta().group_index()));
+                            ORD.get()
+                        })
+                        .measure_wrapper(
+                            move |a| {
+                                b.callback("begin", Some(a.meta().group_index()));
+                                ORD.get()
+                            },
+                            move |w: usize| {
+                                b.callback("end", None);
+                                w
+                            },
+                        )
+                        .iter(move |a| {
+                            b.callback("iter", Some(a.meta().group_index()));
+                        }),
+                ));
+                vrt::catch(|| {
+                    let summary = run.execute_on(&mut pool, k as u64);
+                    summary.measure_outputs().count()
+                })
+            } else {
+                let run = Box::leak(Box::new(
+                    Run::new()
+                        .groups(NonZero::new(g).unwrap())
+                        .prepare_thread(move |a| {
+                            b.callback("prepare_thread", Some(a.meta().group_index()));
+                            TState { b, w: ORD.get() }
+                        })
+                        .prepare_iter(move |a| {
+                            b.callback("prepare_iter", Some(a.meta().group_index()));
                             a.thread_state().w
-                        },
-                        move |w: usize| {
-                            b.callback("end", None);
-                            w
-                        },
-                    )
-                    .iter(move |a| {
-                        b.callback("iter", Some(a.meta().group_index()));
-                    }),
-            ));
-            let r = vrt::catch(|| {
-                let summary = run.execute_on(&mut pool, k as u64);
-                summary.measure_outputs().count()
-            });
+                        })
+                        .measure_wrapper(
+                            move |a| {
+                                b.callback("begin", Some(a.meta().group_index()));
+                                a.thread_state().w
+                            },
+                            move |w: usize| {
+                                b.callback("end", None);
+                                w
+                            },
+                        )
+                        .iter(move |a| {
+                            b.callback("iter", Some(a.meta().group_index()));
+                        }),
+                ));
+                vrt::catch(|| {
+                    let summary = run.execute_on(&mut pool, k as u64);
+                    summary.measure_outputs().count()
+                })
+            };
             let out = match r {
                 Ok(outs) => Outcome { kind: "ok", outs },
                 Err(_) => Outcome { kind: "panic", outs: 0 },
@@ -304,7 +357,9 @@ fn healthy(out: &str, kmax: usize, stagger_ms: u64) {
                 // prepare_thread so that a barrier that lets the others go early is visible
                 let stagger = if stagger_ms > 0 && k == 1 && n >= 2 && n <= 6 { (n, stagger_ms) } else { (0, 0) };
                 log_line(&json!({"ev":"reset"}));
-                let (p, h) = run_one(pool, n, g, k, vec![], stagger, 0);
+                // every other configuration is built without prepare_thread (another legal builder order)
+                let no_pt = k >= 1 && (n + g + k) % 2 == 1 && stagger.0 == 0; // (k = 0: no callback before the start barrier to hang the recorded preparation on)
+                let (p, h) = run_one_cfg(pool, n, g, k, vec![], stagger, 0, no_pt);
                 runs += 1;
                 match p {
                     Some(p) => pool = p,
